@@ -107,12 +107,17 @@ def classes_of(g):
     return out
 
 
+payload_rep_stride = [1]
+
+
 def path_scope(k):
     """k = operator bound, or 'tt' = exactly two operators, both temporal, over {p,q}: the outer
     temporal operator has a path formula as operand ((X p) R q, G F p, ...)."""
     if k == 'tt':
         return [g for g in fm.enum_exact(fm.LTL_UN, fm.LTL_BIN, (fm.P, fm.Q), 2)
                 if g[0] in fm.TEMP and fm.temporal_count(g) == 2]
+    if k == 'rep':
+        return fm.ltl_repeated()[::payload_rep_stride[0]]
     if k == 'k3':
         # every 97th path formula with exactly 3 operators over {p,q} (207 of 20 048)
         return fm.enum_strided(fm.LTL_UN, fm.LTL_BIN, (fm.P, fm.Q), 3, 97)
@@ -126,12 +131,16 @@ def enum_shard(st, shard, nshards, payload):
         paths = path_scope(k)
         objs = [fm.to_lib(('A', g), L) for g in paths]
         cls = [classes_of(g) for g in paths]
-        for K in scope_iter(n, stride, nshards):
-            idx += 1
-            if idx % nshards != shard:
+        for j, K in enumerate(scope_iter(n, stride, nshards)):
+            # every stride-th structure of THIS scope (S(4)+ are already strided by the decoder),
+            # dealt round-robin to the shards
+            if n < 4:
+                if j % stride:
+                    continue
+                j //= stride
+            if j % nshards != shard:
                 continue
-            if n < 4 and stride > 1 and (idx // nshards) % stride != 0:
-                continue
+            idx += 1 + shard
             M = ref.Model(K)
             naming = NAMINGS[idx % len(NAMINGS)]
             how = idx % 6
@@ -180,18 +189,20 @@ def run(ctx):
                 'as false and as true.')
     if ctx.thorough:
         scopes = [(1, 2, 1), (2, 2, 1), (3, 1, 1), (4, 1, 4001), (3, 'tt', 5), (3, 2, 211), (4, 'tt', 20011),
-                  (2, 'k3', 1), (3, 'k3', 97), (4, 'k3', 200003)]
+                  (2, 'k3', 1), (3, 'k3', 97), (4, 'k3', 200003), (1, 'rep', 1), (2, 'rep', 3), (3, 'rep', 401)]
         ctx.scopes = ['S(1)+S(2) x LTL path k<=2 (4324 formulas)', 'S(3) x k<=1 (100 formulas)',
                       'every 4001st of S(4) x k<=1', 'every 5th of S(3) x tt (90 formulas with two nested temporal operators)',
                       'every 211th of S(3) x k<=2', 'every 20011th of S(4) x tt',
-                      'S(2), every 97th of S(3), every 200003rd of S(4) x k3 (every 97th path formula with exactly 3 operators)']
+                      'S(2), every 97th of S(3), every 200003rd of S(4) x k3 (every 97th path formula with exactly 3 operators)',
+                      'S(1), every 3rd of S(2), every 401st of S(3) x rep (360 formulas with a temporal subformula repeated under both polarities)']
     else:
         scopes = [(1, 2, 1), (2, 1, 1), (2, 2, 12), (3, 1, 24), (4, 1, 60013), (3, 'tt', 211), (2, 'k3', 16),
-                  (3, 'k3', 1801)]
+                  (3, 'k3', 1801), (1, 'rep', 1), (2, 'rep', 24), (3, 'rep', 5501)]
         ctx.scopes = ['S(1) x k<=2', 'S(2) x k<=1', 'every 12th of S(2) x k<=2',
                       'every 24th of S(3) x k<=1', 'every 60013th of S(4) x k<=1',
                       'every 211th of S(3) x tt (two nested temporal operators)',
-                      'every 16th of S(2) and every 1801st of S(3) x k3 (every 97th path formula with exactly 3 operators)']
+                      'every 16th of S(2) and every 1801st of S(3) x k3 (every 97th path formula with exactly 3 operators)',
+                      'S(1), every 24th of S(2), every 5501st of S(3) x rep (360 formulas with a temporal subformula repeated under both polarities)']
     ctx.exhaustive = True
     ctx.assumptions = ['reference semantics vp/ref.py (R-STAR certified by R-PATH) is the trusted base',
                        'formulas are bounded to <= 3 temporal operators because the tableau under '
